@@ -143,10 +143,7 @@ Section Equal.
   Definition types_equal_res (a b : N) : result bool :=
     let* x := teq (S (S (List.length r))) a glist_empty b glist_empty ([], []) in Ok (fst x).
 
-  (** for the generation loop ([types_equal] panics are not reachable there:
-      both ids are entries of the registry being iterated) *)
-  Definition types_equal (a b : N) : bool :=
-    match types_equal_res a b with Ok x => x | _ => false end.
+  Definition types_equal (a b : N) : result bool := types_equal_res a b.
 End Equal.
 
 (** ** [ensure_unique_type_paths] *)
